@@ -11,6 +11,7 @@ import ast
 from ..cfg import cfg_of
 from ..model import AnalysisError, call_name, calls_in, dotted, norm, walk_no_nested
 from .. import normal, rules
+from .. import conds as cnd
 
 META = {
     "explanation": "Static dataflow/CFG rules on every Connection.send_data that writes to a non-blocking socket, on "
@@ -378,6 +379,20 @@ def check_process_send_queue(ctx):
     whiles = [n for n in cfg.nodes if n.kind == "test" and n.label == "while"]
     ctx.require(len(whiles) >= 1, f"{q}: no drain loop")
     head = whiles[0]
+    # a queued block is always worked on: nothing returns before the drain loop unless the queue is empty
+    early = [r for r in cfg.real_nodes() if isinstance(r.ast, ast.Return) and not cfg.path_exists(head, r)]
+    bad_early = [r for r in early if ("self._send_queue.empty()", True) not in cnd.facts(cfg, r)]
+    ctx.ob("C10.P3", q, not bad_early, "the function returns before the drain loop only when the send queue is empty" if not bad_early else
+           f"`return` before the drain loop under {cnd.describe(cfg, bad_early[0]) or 'no condition'}: queued blocks are never written and their senders wait for ever", key="early-return-empty", where=func.where)
+    # a block whose packets were all written is reported as sent
+    res_true_all = [n for n in cfg.real_nodes() if any((call_name(k) or "").endswith(".resolve") and k.args and rules.literal(fn, k.args[0]) == (True, True) for k in n.calls)]
+    fail_markers = []
+    for c in sd_calls:
+        for tnode, falsy in rules.truthiness_tests(cfg, fn, c):
+            fail_markers.append(rules.branch_marker(tnode, falsy))
+    ok = bool(res_true_all) and any(cfg.path_exists(rules.branch_marker(head, "true"), rt, avoid=fail_markers) for rt in res_true_all)
+    ctx.ob("C10.P3", q, ok, "a block whose packets were all accepted is resolved True" if ok else
+           "no resolve(True) is reached when every packet was written: a delivered block is reported as failed (the sender aborts or repeats the message)", key="success-resolved", where=func.where)
     is_resolve = lambda n: any((x or "").endswith(".resolve") for x in n.call_names())  # noqa: E731
     counts = cfg.loop_iteration_counts(head, is_resolve, no_exc=True)
     ok = all(v == (1, 1) for v in counts.values()) and bool(counts)
